@@ -107,6 +107,9 @@ def build_pool(seed):
     for n in (21, 105, 1234567):
         for frame in ['{}', 'i have {} of them', 'minus {}', '{} and {}']:
             add('number', frame.format(numwords.en(n), numwords.en(n + 1)), 'en-us')
+    for frame in ['{}', 'it lasted {}', 'wait {} please']:
+        for d in ['3 days', '45 minutes', '5 hours', '7 years', '2 weeks', '90 seconds', '1 month']:
+            add('datetime', frame.format(d), 'en-us')
     # 4. two cultures of one language with different number formats
     for c in ('es-es', 'es-mx'):
         for q in ['cuesta 1,5 euros', 'cuesta 1.5 euros', 'pesa 2,5 kg', 'mide 3.25 metros', 'tiene 10 años', '37,5 grados', '1.234,5', '1,234.5']:
